@@ -85,6 +85,16 @@ fn ev_ll(t: &mut TraceWriter, s: u32, a: (i128, i128), b: (i128, i128), c: (i128
     t.ev(ev);
 }
 
+/// the library's own predicate for "no intersection point": parallel(l1, l2)
+fn ev_par(t: &mut TraceWriter, s: u32, a: (i128, i128), b: (i128, i128), c: (i128, i128), d: (i128, i128)) {
+    let mut ev = json!({"ev": "par", "op": "parallel", "s": s, "a": ip(a.0, a.1), "b": ip(b.0, b.1), "c": ip(c.0, c.1), "d": ip(d.0, d.1)});
+    match catch(|| rlib_geometry::util::parallel(&Line::between(&fp(a.0, a.1, s), &fp(b.0, b.1, s)), &Line::between(&fp(c.0, c.1, s), &fp(d.0, d.1, s)))) {
+        Ok(r) => ev["res"] = json!(r),
+        Err(p) => ev["panic"] = json!(p),
+    }
+    t.ev(ev);
+}
+
 fn ev_pos(t: &mut TraceWriter, s: u32, p: (i128, i128), c: (i128, i128), r: i128) {
     let circle = Circle::new(fp(c.0, c.1, s), f(r, s));
     let mut ev = json!({"ev": "pos", "op": "position", "s": s, "p": ip(p.0, p.1), "c": ip(c.0, c.1), "r": bi(r)});
@@ -238,6 +248,25 @@ pub fn record(seed: u64, tier: &str, out: &str) {
         if k % 5 == 0 {
             // the same steep line against a circle it crosses
             ev_cl(&mut t, s20, (if k % 4 >= 2 { y1 } else { x0 } + rng.range_i64(-(50 << 20), 50 << 20) as i128, if k % 4 >= 2 { x0 } else { y1 }), 200 * u20 + rng.below(1 << 24) as i128, a, b, "steep line");
+        }
+    }
+    // ---- parallel(): exactly parallel lattice directions, and nearly parallel ones (k, k+1) against (k+1, k+2) whose
+    // angle (about 1 / 2k^2 = 1e-6 .. 6e-6) is a thousand times the library's tolerance
+    for k in 0..(if thorough { 1500 } else { 250 }) {
+        let q = 300 + rng.below(420) as i128;
+        let p0 = (rng.range_i64(-40, 40) as i128, rng.range_i64(-40, 40) as i128);
+        let p1 = (rng.range_i64(-40, 40) as i128, rng.range_i64(-40, 40) as i128);
+        let (u, v) = match k % 4 {
+            0 => ((q, q + 1), (q + 1, q + 2)),
+            1 => ((q + 1, q), (-(q + 2), -(q + 1))),
+            2 => ((q, q + 1), (2 * q, 2 * q + 2)),     // exactly parallel
+            _ => ((q, -(q + 1)), (-(q + 1), q + 2)),
+        };
+        ev_par(&mut t, 0, p0, (p0.0 + u.0, p0.1 + u.1), p1, (p1.0 + v.0, p1.1 + v.1));
+    }
+    for (i, l1) in lines.iter().enumerate() {
+        for l2 in lines.iter().skip(i % 2).step_by(2) {
+            ev_par(&mut t, 0, l1.0, l1.1, l2.0, l2.1);
         }
     }
     // ---- large circles against axis-parallel lines 2^-23 .. 2^-21 (1.2e-7 .. 4.8e-7) inside or outside tangency: far
